@@ -2,7 +2,33 @@ HOOK_COMMITS = []
 NOT_APPLICABLE = {}
 TB = ("Trusted: Coq 8.16.1 kernel + vm_compute (no native_compute, no axioms: every property theorem prints 'Closed under the global context'); "
       "the hand-written Gallina model, tied to /repo only by the correspondence check of each run (sampled behaviours); the Go harness (generators, oracles) ")
+SRV = ("; the server model (Model/Server.v: evaluatePushPullCase, processSubscribeOrCreate, push/pull/commit over an abstract document store) and the client protocol model (Model/Wire.v) are replayed on every run against the real OrdaService running in process over an in-memory MongoDB/MQTT stand-in and real clients: every request, response, store state and publish must coincide")
 TEXTS = {
+ "C06": {
+  "text": "Theorem C06_log_invariant: after ANY sequence of requests (arbitrary packs: option bits, checkpoints, DUIDs, operation lists, re-pushes, gaps) every datatype's stored operations carry server sequence numbers exactly 1..End in order, no checkpoint exceeds End, no operation lacks its datatype, DUIDs and (collection,key) are unique — by an invariant proved for the whole handler (all eight cases of the decision, push loop, pull, two-write commit)." ,
+  "note": TB + SRV + "; the per-client clause (a client's operations appear in issue order) is so far checked by the oracle on the real store, not proved; concurrency and storage faults are C12/C08.",
+  "technique": "Coq proof (store invariant by induction over request sequences) + in-Coq differential replay of real server exchanges + store oracle",
+ },
+ "C13": {
+  "text": "Theorems: subscribing to a missing key, creating an existing key (other type, or same type by anybody but the creator repeating its request), and any entry request on a key of another type are answered with an error and leave the store unchanged; after any request sequence a (collection,key) names at most one datatype. The client-side half (error reaches the error handler, state change reported exactly once, first state of a subscriber) is in the replayed model of ApplyPushPullPack and in the harness oracles.",
+  "note": TB + SRV + "; racing SubscribeOrCreate is covered under the serialisation assumption of C12.",
+  "technique": "Coq proof (decision table by case analysis + uniqueness invariant) + in-Coq differential replay + handler oracle",
+ },
+ "C16": {
+  "text": "Theorems: a pack answered with an error leaves the entire store unchanged and publishes nothing, in every reachable store; requests refused before a handler runs change nothing; plain push-pulls for unknown or foreign datatypes are refused. Totality (every request is answered, server and client survive) is by construction in the model and is what the harness tests on the real code with per-call deadlines over mutated requests (option bits, DUIDs, checkpoints, operations, types, keys, collections, clients).",
+  "note": TB + SRV + "; absence of hangs/crashes in the Go runtime is tested, not proved.",
+  "technique": "Coq proof (frame property from the handler specification) + in-Coq differential replay of mutated requests",
+ },
+ "C17": {
+  "text": "Theorems: handling a pack of a client of collection c replaces one datatype document of c and appends operations of that datatype and collection only — every other document and operation is untouched; clients of another collection and DUIDs of another collection's datatypes are refused; distinct collection names never share a number after any request sequence.",
+  "note": TB + SRV + "; ResetCollection (purge) is not yet in the model.",
+  "technique": "Coq proof (frame + injectivity invariant) + in-Coq differential replay over 1-2 collections with foreign names and DUIDs",
+ },
+ "C18": {
+  "text": "Theorem: a handled pack produces exactly one notification (topic collection/key, pusher id, datatype id, new end of log) iff it stored at least one operation, none otherwise. Publishes recorded at the broker are compared with the model's on every exchange.",
+  "note": TB + SRV + "; convergence of realtime clients (second sentence of the property) relies on the protocol results of C05/C07 and is not driven by real realtime clients yet.",
+  "technique": "Coq proof (from the handler specification) + in-Coq differential replay of publishes",
+ },
  "C09": {
   "text": "Theorems over the model of transaction.go/wired.go/base.go, generic in the CRDT kernel and instantiated for counter, map and list: at any point of any history (valid and invalid calls, committed and aborted transactions, remote operations) an aborted transaction leaves snapshot, next operation id, pending operations and checkpoint unchanged — via the invariant 'replaying rollbackOps on the rollback point reproduces the current state', proved for every event; a committed transaction is one contiguous unit headed by its length; a remote unit is applied entirely or, if truncated / zero / negative / over-counted, not at all. The model is replayed against real replicas (transactions with mixed valid/invalid calls, aborts after remote deliveries, malformed units) on every run; the oracle compares state, id, DUID and pending operations before/after every aborted transaction.",
   "note": TB + "; Document transactions are covered by the generic theorem only once the document kernel is modelled; under-counted headers are indistinguishable from a shorter unit followed by stand-alone operations (stated in DESIGN.md).",
